@@ -60,6 +60,10 @@ def compare_slot(w: World, slot_idx: int, owner: str, trigger: str, *, bind=True
             walk(mc, rc, rc, f"{path}/{mc.uid}")
 
     walk(slot.model.root, real_tree, None, "")
+    n_model = slot.model.count()
+    if real_tree.count != n_model or len(real_tree) != n_model:
+        fail("count", f"tree reports {real_tree.count} nodes (len {len(real_tree)}), "
+                      f"the documented effect leaves {n_model}")
 
 
 def check_removed(w: World, slot_idx: int):
